@@ -68,6 +68,7 @@ func (s *server) Close(ctx context.Context) error {
 		s.connections.Range(func(key, value interface{}) bool {
 			conn, ok := value.(gracefulExit)
 			if !ok || conn.isIdle() {
+				verifPoint(vpServerCloseIdle, value, 0)
 				value.(Connection).Close()
 			} else {
 				activeConn++
@@ -112,6 +113,7 @@ func (s *server) OnRead(p Poll) error {
 	if isOutOfFdErr(err) {
 		// since we use Epoll LT, we have to detach listener fd from epoll first
 		// and re-register it when accept successfully or there is no available connection
+		verifPoint(vpEmfileDetach, s, 0)
 		cerr := s.operator.Control(PollDetach)
 		if cerr != nil {
 			logger.Printf("NETPOLL: detach listener fd failed: %v", cerr)
@@ -124,9 +126,11 @@ func (s *server) OnRead(p Poll) error {
 				if retryTimeIndex > 0 {
 					time.Sleep(retryTimes[retryTimeIndex] * time.Millisecond)
 				}
+				verifPoint(vpEmfileRetry, s, retryTimeIndex)
 				conn, err := s.ln.Accept()
 				if err == nil {
 					if conn == nil {
+						verifPoint(vpEmfileReregister, s, 0)
 						// recovery accept poll loop
 						s.operator.Control(PollReadable)
 						return
@@ -164,6 +168,7 @@ func (s *server) onAccept(conn Conn) {
 	// store & register connection
 	nconn := new(connection)
 	nconn.init(conn, s.opts)
+	verifPoint(vpAcceptAfterInit, nconn, conn.Fd())
 	if !nconn.IsActive() {
 		return
 	}
@@ -172,7 +177,9 @@ func (s *server) onAccept(conn Conn) {
 		s.connections.Delete(fd)
 		return nil
 	})
+	verifPoint(vpAcceptBeforeStore, nconn, fd)
 	s.connections.Store(fd, nconn)
+	verifPoint(vpAcceptAfterStore, nconn, fd)
 
 	// trigger onConnect asynchronously
 	nconn.onConnect()
